@@ -215,7 +215,13 @@ pub fn decode_case(data: &[u8], fam: Family) -> Case {
             }
             29 => Op::DropStaleWakers,
             30 => Op::Refill(b(u) as u16 % 40, plan(u, merge, false)),
-            _ => Op::Exec(0, 8),
+            _ => {
+                if b(u) % 2 == 0 {
+                    Op::Extend(b(u) % 12, plan(u, merge, false))
+                } else {
+                    Op::Exec(0, 8)
+                }
+            }
         };
         ops.push(op);
     }
